@@ -53,7 +53,10 @@ func LoadPrelude(dir string) (*Prelude, error) {
 		return nil, err
 	}
 	for _, s := range sx {
-		if len(s.list) < 4 {
+		if len(s.list) < 3 {
+			continue
+		}
+		if len(s.list) < 4 && s.list[0].atom != "declare-datatypes" && s.list[0].atom != "declare-const" {
 			continue
 		}
 		switch s.list[0].atom {
